@@ -31,6 +31,16 @@ def reg(name, backend, params, **flags):
     REG[name] = d
 
 
+# the representative-directions MORPH models document an optional stabilisation parameter (Greek epsilon); None = default
+MORPH_RD_PARAMS = st.fixed_dictionaries({"scale": fl(0.8, 1.2), "eps": st.sampled_from([None, None, 1e-4, 1e-3])})
+
+
+def _eps_kw(p, default=None):
+    e_ = p.get("eps", None)
+    e_ = default if e_ is None else e_
+    return {} if e_ is None else {"\u03b5": e_}
+
+
 # ---- hand-coded -----------------------------------------------------------------------------------------------
 reg("NeoHooke", "hand", st.fixed_dictionaries({"mu": fl(0.2, 5), "bulk": fl(0.5, 50)}), energy=True,
     mu0=lambda p: p["mu"], K0=lambda p: p["bulk"])
@@ -104,10 +114,10 @@ for _fw in ("affine_stretch", "affine_tube", "nonaffine_stretch", "nonaffine_tub
 # MORPH without the exponential term (p[6] = 0): the symmetric-only expm() of tensortrax (finding F10) then has nothing to act
 # on in the stress, so that e.g. the symmetry of the Kirchhoff stress can be decided on non-coaxial histories as well
 reg("tt:morph(p6=0)", "tensortrax", st.fixed_dictionaries({"scale": fl(0.8, 1.2)}), fun="morph_p6", nstate=13, hyper=False, tol_fd=2e-5)
-reg("tt:morph_representative_directions", "tensortrax", st.fixed_dictionaries({"scale": fl(0.8, 1.2)}), fun="morph_representative_directions",
+reg("tt:morph_representative_directions", "tensortrax", MORPH_RD_PARAMS, fun="morph_representative_directions",
     nstate=84, hyper=False, iso=False, micro=True, tol_fd=2e-5)
 # the strain-energy variant of the representative-directions MORPH model (hyperelastic namespace, handed to Hyperelastic)
-reg("tt:hyperelastic.morph_representative_directions", "tensortrax", st.fixed_dictionaries({"scale": fl(0.8, 1.2)}), fun="morph_rd_energy",
+reg("tt:hyperelastic.morph_representative_directions", "tensortrax", MORPH_RD_PARAMS, fun="morph_rd_energy",
     nstate=84, hyper=False, iso=False, micro=True, tol_fd=2e-5)
 # a user-defined Cauchy-stress law WITH a state variable behind the updated-Lagrange decorator (the old state scales the modulus)
 reg("tt:updated_lagrange(neo_hooke with state)", "tensortrax", st.fixed_dictionaries({"mu": fl(0.2, 5)}), fun="updated_lagrange_state", nstate=1, hyper=False)
@@ -122,7 +132,7 @@ for _n in ["neo_hooke", "mooney_rivlin", "yeoh", "third_order_deformation", "ext
         _f["reg"] = 1e-4  # jax eigenvalue regularisation diag(0, +-1e-4)
     reg("jax:" + _n, "jax", _p, energy=True, fun=_n, **_f)
 reg("jax:morph", "jax", st.fixed_dictionaries({"scale": fl(0.8, 1.2)}), fun="morph", nstate=13, hyper=False, tol_fd=2e-5, reg=1e-4)
-reg("jax:morph_representative_directions", "jax", st.fixed_dictionaries({"scale": fl(0.8, 1.2)}), fun="morph_representative_directions",
+reg("jax:morph_representative_directions", "jax", MORPH_RD_PARAMS, fun="morph_representative_directions",
     nstate=84, hyper=False, iso=False, micro=True, tol_fd=2e-5)
 # a user-defined energy with state variables handed to jax.Hyperelastic (documented nstatevars argument): the OLD state enters
 # the energy as a parameter, the new state is a function of C
@@ -206,7 +216,7 @@ def _build(name, params):
         if f == "morph":
             return tt.Material(L.morph, p=[v * p["scale"] if i in (0, 1, 2) else v for i, v in enumerate(MORPH_P)], nstatevars=13)
         if f == "morph_representative_directions":
-            return tt.Material(L.morph_representative_directions, p=[v * p["scale"] if i in (0, 1, 2) else v for i, v in enumerate(MORPH_P)], nstatevars=84)
+            return tt.Material(L.morph_representative_directions, p=[v * p["scale"] if i in (0, 1, 2) else v for i, v in enumerate(MORPH_P)], nstatevars=84, **_eps_kw(p))
         if f == "total_lagrange":
             @tt.total_lagrange
             def nh_tl(F, mu=1):
@@ -225,7 +235,7 @@ def _build(name, params):
         if f == "morph_rd_energy":
             # same stabilisation parameter as the default of the stress form (the two forms document different defaults)
             return tt.Hyperelastic(M.morph_representative_directions, p=[v * p["scale"] if i in (0, 1, 2) else v for i, v in enumerate(MORPH_P)], nstatevars=84,
-                                   **{"\u03b5": 1e-6})
+                                   **_eps_kw(p, 1e-6))
         if f == "updated_lagrange_state":
             @tt.updated_lagrange
             def nh_ul_state(F, statevars, mu=1):
@@ -253,7 +263,7 @@ def _build(name, params):
         if f == "morph":
             return jx.Material(L.morph, p=[v * p["scale"] if i in (0, 1, 2) else v for i, v in enumerate(MORPH_P)], nstatevars=13)
         if f == "morph_representative_directions":
-            return jx.Material(L.morph_representative_directions, p=[v * p["scale"] if i in (0, 1, 2) else v for i, v in enumerate(MORPH_P)], nstatevars=84)
+            return jx.Material(L.morph_representative_directions, p=[v * p["scale"] if i in (0, 1, 2) else v for i, v in enumerate(MORPH_P)], nstatevars=84, **_eps_kw(p))
         if f == "user_state":
             def w_state(C, statevars, mu=1.0):
                 J = jnp.sqrt(jnp.linalg.det(C))
